@@ -5,6 +5,7 @@ import (
 	"go/ast"
 	"go/token"
 	"go/types"
+	"os"
 	"sort"
 	"strings"
 
@@ -492,6 +493,8 @@ func runR092(c *core.Ctx) {
 		{"BuildQueryParams", "param", "WriteString"},
 	} {
 		_, fd := mustDecl(c, rel, spec.fn)
+		// the inlined view: helpers split off WriteMap / BuildQueryParams are part of the function
+		v := core.NewVirtual(c.M, fd)
 		// the user callback call: a call of the function's MapWriter parameter
 		var cbParam types.Object
 		for _, fl := range fd.Type.Params.List {
@@ -502,21 +505,25 @@ func runR092(c *core.Ctx) {
 			}
 		}
 		var sortCall *ast.CallExpr
+		var sortFrame *core.VFrame
 		var sortedObj types.Object
-		ast.Inspect(fd.Body, func(n ast.Node) bool {
-			if call, ok := n.(*ast.CallExpr); ok {
-				f := core.Callee(inf, call)
+		v.Inspect(func(fr *core.VFrame, n ast.Node) bool {
+			if call, ok := n.(*ast.CallExpr); ok && len(call.Args) >= 1 {
+				f := core.Callee(fr.Info, call)
 				if f != nil && f.Pkg() != nil && (f.Pkg().Path() == "sort" && (f.Name() == "Slice" || f.Name() == "SliceStable" || f.Name() == "Sort") || f.Pkg().Path() == "slices" && strings.HasPrefix(f.Name(), "Sort")) {
-					sortCall = call
-					sortedObj = core.ObjOf(inf, call.Args[0])
+					if sortCall == nil {
+						sortCall, sortFrame = call, fr
+						sortedObj = v.ObjOf(fr.Info, call.Args[0])
+					}
 				}
 			}
 			return true
 		})
 		if sortCall == nil {
-			c.Bad(rel, spec.fn, "entries are sorted before emission", fd.Pos(), "no sort call: keys are emitted in insertion order (map iteration order of the caller)")
+			c.Bad(rel, spec.fn, "entries are sorted before emission", fd.Pos(), "no sort call in the function or the helpers it calls: keys are emitted in insertion order (map iteration order of the caller)")
 			continue
 		}
+		sinf := sortFrame.Info
 		// comparator shape
 		okLess, why := false, "the less function is not `entries[i]."+spec.keyField+" < entries[j]."+spec.keyField+"`"
 		if len(sortCall.Args) == 2 {
@@ -527,7 +534,7 @@ func runR092(c *core.Ctx) {
 					names = append(names, f.Names...)
 				}
 				if len(names) == 2 {
-					pi, pj = inf.Defs[names[0]], inf.Defs[names[1]]
+					pi, pj = sinf.Defs[names[0]], sinf.Defs[names[1]]
 				}
 				if r, ok := fl.Body.List[0].(*ast.ReturnStmt); ok && len(r.Results) == 1 {
 					if be, ok := core.Unparen(r.Results[0]).(*ast.BinaryExpr); ok {
@@ -540,7 +547,7 @@ func runR092(c *core.Ctx) {
 							if !ok {
 								return nil, "", nil
 							}
-							return core.ObjOf(inf, ix.Index), sel.Sel.Name, core.ObjOf(inf, ix.X)
+							return core.ObjOf(sinf, ix.Index), sel.Sel.Name, v.ObjOf(sinf, ix.X)
 						}
 						li, lf, lb := side(be.X)
 						ri, rf, rb := side(be.Y)
@@ -555,42 +562,65 @@ func runR092(c *core.Ctx) {
 			}
 		}
 		c.Check(okLess, rel, spec.fn, "comparator is ascending on the entry key", sortCall.Pos(), "", why)
-		// order: callback -> sort -> emission loop over the sorted slice
-		var cbPos token.Pos
-		ast.Inspect(fd.Body, func(n ast.Node) bool {
+		// order: callback -> sort -> emission in an ascending walk of the sorted slice
+		var cbCall *ast.CallExpr
+		v.Inspect(func(fr *core.VFrame, n ast.Node) bool {
 			if call, ok := n.(*ast.CallExpr); ok {
-				if id, ok := core.Unparen(call.Fun).(*ast.Ident); ok && core.ObjOf(inf, id) == cbParam && cbParam != nil {
-					cbPos = call.Pos()
+				if id, ok := core.Unparen(call.Fun).(*ast.Ident); ok && v.ObjOf(fr.Info, id) == cbParam && cbParam != nil {
+					cbCall = call
 				}
 			}
 			return true
 		})
 		emitOK, emitAny := true, false
-		par := core.Parents(fd)
-		ast.Inspect(fd.Body, func(n ast.Node) bool {
+		pars := map[*core.VFrame]map[ast.Node]ast.Node{}
+		v.Inspect(func(fr *core.VFrame, n ast.Node) bool {
 			call, ok := n.(*ast.CallExpr)
 			if !ok {
 				return true
 			}
-			f := core.Callee(inf, call)
+			f := core.Callee(fr.Info, call)
 			isEmit := f != nil && (f.Name() == spec.emit || f.Name() == "DumpTo")
 			if !isEmit {
 				return true
 			}
-			// inside a FuncLit passed to the callback? (BuildQueryParams' closure has no emission)
 			emitAny = true
+			if pars[fr] == nil {
+				pars[fr] = core.Parents(fr.Body)
+			}
+			par := pars[fr]
 			inLoop := false
 			for p := par[call]; p != nil; p = par[p] {
-				if rs, ok := p.(*ast.RangeStmt); ok && core.ObjOf(inf, rs.X) == sortedObj {
-					inLoop = true
+				switch l := p.(type) {
+				case *ast.RangeStmt:
+					if v.ObjOf(fr.Info, l.X) == sortedObj {
+						inLoop = true
+					}
+				case *ast.ForStmt:
+					// for i := 0; i < len(sorted); i++ : an ascending index walk
+					if inc, ok := l.Post.(*ast.IncDecStmt); ok && inc.Tok == token.INC && l.Cond != nil {
+						mentionsSorted := false
+						ast.Inspect(l.Cond, func(m ast.Node) bool {
+							if id, ok := m.(*ast.Ident); ok && v.ObjOf(fr.Info, id) == sortedObj {
+								mentionsSorted = true
+							}
+							return true
+						})
+						if mentionsSorted {
+							inLoop = true
+						}
+					}
 				}
 			}
-			if !inLoop || call.Pos() < sortCall.End() {
+			if !inLoop || !v.Before(sortCall, call) {
+				if os.Getenv("VERIF_DEBUG") != "" {
+					fmt.Fprintf(os.Stderr, "R09.2 debug: emission %s at %s inLoop=%v afterSort=%v frame=%s\n", core.ExprString(call), c.M.Position(call.Pos()), inLoop, v.Before(sortCall, call), fr.Name())
+				}
 				emitOK = false
 			}
 			return true
 		})
-		c.Check(cbPos != 0 && cbPos < sortCall.Pos() && emitAny && emitOK, rel, spec.fn, "keys and buffered values are emitted only in the loop over the sorted entries", fd.Pos(), "",
+		c.Check(cbCall != nil && v.Before(cbCall, sortCall) && emitAny && emitOK, rel, spec.fn, "keys and buffered values are emitted only in the loop over the sorted entries", fd.Pos(), "",
 			"an entry is emitted outside the loop over the sorted slice or before the sort")
 	}
 }
